@@ -375,16 +375,10 @@ def handle (toks : List String) : String :=
   | ["route", ty, which, hs] =>
     match parseBType ty, unhex hs with
     | some t, some str =>
-      let p := if which == "json" then F64.parseJson str else F64.parseRust str
-      (match p.bits? with
-      | some b =>
-        let (lo, hi) := rangeBits t
-        let checked := which != "json" || t.jsonChecked
-        if which == "json" && !F64.isFinite b then "ERR"
-        else if !checked then "OK " ++ hexOfBits b
-        else (match F64.tryFromBits lo hi b with
-          | some x => "OK " ++ hexOfBits x
-          | none => "ERR")
+      let (lo, hi) := rangeBits t
+      let r := if which == "json" then F64.jsonRoute t.jsonChecked lo hi str else F64.textRoute lo hi str
+      (match r with
+      | some x => "OK " ++ hexOfBits x
       | none => "ERR")
     | _, _ => bad
   | "cli" :: m :: rest =>
